@@ -128,12 +128,12 @@ type knownEntry struct {
 }
 
 type Ctx struct {
-	Prop    string
-	Tier    string
-	Seed    int64
-	Level   string
-	Rule    string
-	Assume  []string
+	Prop     string
+	Tier     string
+	Seed     int64
+	Level    string
+	Rule     string
+	Assume   []string
 	VerifDir string
 
 	mu         sync.Mutex
@@ -159,7 +159,7 @@ type Ctx struct {
 	isChild     bool
 
 	// replay mode
-	replay *Violation
+	replay     *Violation
 	replayReps int
 }
 
@@ -540,9 +540,9 @@ func (k *Case) Guard(class, key string, f func()) (ok bool) {
 // the child's own records are merged by the parent.
 
 type IsoOpts struct {
-	Batch   int           // cases per child
-	Par     int           // children in parallel
-	Timeout time.Duration // per child watchdog (generous; expiry => SIGQUIT, dump kept)
+	Batch   int                   // cases per child
+	Par     int                   // children in parallel
+	Timeout time.Duration         // per child watchdog (generous; expiry => SIGQUIT, dump kept)
 	Env     func(lo int) []string // extra environment for the child handling [lo,hi)
 	// OnDeath decides what a child death means. Default: violation class "process-death".
 	// Return ("", "") to ignore.
